@@ -264,7 +264,9 @@ func buildCommand(e *Env, c Cmd, now int64, tag string) (cmd.Command, string, er
 			add("dest", c.Dest)
 		}
 		layoutArgs()
-		add("copy-nan", strconv.FormatBool(c.CopyNaN))
+		if c.CopyNaN { // default false
+			add("copy-nan", "true")
+		}
 	case "diff":
 		command = &cmd.DiffCommand{SrcBase: srcBase, SrcRelPath: c.Src, DestBase: dstBase, DestRelPath: c.Dest,
 			From: fromTS, Until: untilTS, ArchiveID: c.Archive, TextOut: tout}
@@ -278,19 +280,27 @@ func buildCommand(e *Env, c Cmd, now int64, tag string) (cmd.Command, string, er
 		command = &cmd.ViewCommand{SrcBase: srcBase, SrcRelPath: c.Src, From: fromTS, Until: untilTS, ArchiveID: c.Archive, ShowHeader: !c.NoHeader, TextOut: tout}
 		add("src-base", srcBase)
 		add("src", c.Src)
-		add("header", strconv.FormatBool(!c.NoHeader))
+		if c.NoHeader { // default true
+			add("header", "false")
+		}
 	case "view-raw":
 		command = &cmd.ViewRawCommand{SrcBase: srcBase, SrcRelPath: c.Src, From: fromTS, Until: untilTS, ArchiveID: c.Archive, ShowHeader: !c.NoHeader, SortsByTime: c.Sort, TextOut: tout}
 		add("src-base", srcBase)
 		add("src", c.Src)
-		add("header", strconv.FormatBool(!c.NoHeader))
-		add("sort", strconv.FormatBool(c.Sort))
+		if c.NoHeader {
+			add("header", "false")
+		}
+		if c.Sort { // default false
+			add("sort", "true")
+		}
 	case "sum":
 		command = &cmd.SumCommand{SrcBase: srcBase, ItemPattern: c.Item, SrcPattern: c.Src, From: fromTS, Until: untilTS, ArchiveID: c.Archive, TextOut: tout, ShowHeader: !c.NoHeader}
 		add("src-base", srcBase)
 		add("item", c.Item)
 		add("src", c.Src)
-		add("header", strconv.FormatBool(!c.NoHeader))
+		if c.NoHeader {
+			add("header", "false")
+		}
 	case "sum-copy":
 		command = &cmd.SumCopyCommand{SrcBase: srcBase, DestBase: dstBase, ItemPattern: c.Item, SrcPattern: c.Src, DestRelPath: c.Dest,
 			AggregationMethod: wtMethod(c.Create.Method), XFilesFactor: float32(c.Create.Xff), ArchiveInfoList: c.Create.wtListFilled(),
@@ -314,8 +324,12 @@ func buildCommand(e *Env, c Cmd, now int64, tag string) (cmd.Command, string, er
 			XFilesFactor: float32(c.Create.Xff), ArchiveInfoList: c.Create.wtListFilled(), RandMax: c.RandMax, Fill: c.Fill, TextOut: tout}
 		add("dest", filepath.Join(dstBase, c.Dest))
 		layoutArgs()
-		add("max", strconv.Itoa(c.RandMax))
-		add("fill", strconv.FormatBool(c.Fill))
+		if c.RandMax != 100 { // default 100
+			add("max", strconv.Itoa(c.RandMax))
+		}
+		if !c.Fill { // default true
+			add("fill", "false")
+		}
 	default:
 		return nil, "", fmt.Errorf("unknown command kind %q", c.Kind)
 	}
@@ -326,7 +340,9 @@ func buildCommand(e *Env, c Cmd, now int64, tag string) (cmd.Command, string, er
 		if c.HasUntil {
 			add("until", tsFlag(until))
 		}
-		add("archive", strconv.Itoa(c.Archive))
+		if c.Archive != -1 { // default: all archives
+			add("archive", strconv.Itoa(c.Archive))
+		}
 	}
 	add("text-out", tout)
 	if c.ViaParse {
